@@ -27,7 +27,10 @@ func init() {
 		ID: "C03", Level: "exploration",
 		Rule:        "seeded commit-focused histories on the inline client and (three of eight) through the gRPC server (overlapping and disjoint write sets, several writes per key through Set, SetReader and Create, deletes, conflicts made by autocommit writes and by other commits, conflicting transaction rolled back, empty transactions); every Commit/Rollback result class and a probe of ALL keys by the autocommit caller and all open transactions after every step are compared with the model (both directions of the iff); evaluations = commits+rollbacks+probes; distinct_nontrivial = distinct (level, outcome, number of writes) commit/rollback classes observed x histories",
 		Assumptions: []string{"reference model refmodel"},
-		Roles:       map[string]Role{"main": {N: func(t string) int { return tierN(t, 320, 20000) }, Case: c03Case}},
+		Roles: map[string]Role{
+			"main":        {N: func(t string) int { return tierN(t, 320, 20000) }, Case: c03Case},
+			"commitfault": {N: func(t string) int { return tierN(t, 12, 480) }, Case: c03CommitFault},
+		},
 	})
 }
 
